@@ -171,8 +171,9 @@ def sample_repr(case, out):
 def deck_tags(deck, labels):
     tags = set()
     for lab in labels:
-        if lab.startswith('macro:') or lab in ('one-sheet-cone',
-                                               'patently-empty-piece'):
+        if lab.startswith('macro:'):
+            tags.add('macrobody')
+        elif lab == 'one-sheet-cone':
             tags.add(lab)
     return sorted(tags)
 
